@@ -241,13 +241,6 @@ package intermediate
 //@                 isFirst(incomingRecord, a.correlateFields[k], j) && dt(recList(incomingRecord)[j]) == Signed32 && recList(incomingRecord)[j].(*Signed32InfoElement).value != 0
 //@                 && isFirst(existingRecord, a.correlateFields[k], l) ==> recList(existingRecord)[l].(*Signed32InfoElement).value == recList(incomingRecord)[j].(*Signed32InfoElement).value
 
-//@ func (a *AggregationProcess) aggregateRecords(incomingRecord, existingRecord, fillSrcStats, fillDstStats) (err)
-//@   requires rec: recNN(incomingRecord) && recNN(existingRecord)
-//@   modifies recList(existingRecord)[*].(*StringInfoElement).value, recList(existingRecord)[*].(*Unsigned8InfoElement).value,
-//@            recList(existingRecord)[*].(*Unsigned32InfoElement).value, recList(existingRecord)[*].(*Unsigned64InfoElement).value,
-//@            recList(existingRecord)[*].(*DateTimeSecondsInfoElement).value
-//@   trusted
-
 //@ func (a *AggregationProcess) addFieldsForStatsAggregation(record, fillSrcStats, fillDstStats) (err)
 //@   requires rec: recNN(record)
 //@   ensures  rec: recNN(record) && (old(flowKinds(record)) ==> flowKinds(record)) && record.(*dataRecord) == old(record.(*dataRecord))
@@ -410,3 +403,112 @@ package intermediate
 //@   loop 1 invariant ch4: forall i in [$i, len(msgRecs(message))): forall k: has(a.flowKeyRecordMap, k) ==> presentCF(a, msgRecs(message)[i], a.flowKeyRecordMap[k].Record)
 //@   loop 1 invariant corrmsg: forall i in [$i, len(msgRecs(message))): forall j in [$i, len(msgRecs(message))): i != j ==> corrOK(a, msgRecs(message)[i], msgRecs(message)[j])
 //@   loop 1 invariant cf: a.correlateFields == old(a.correlateFields)
+
+// ---------------------------------------------------------------------------
+// Aggregation arithmetic (C05)
+// ---------------------------------------------------------------------------
+
+//@ pure u32v(e entities.InfoElementWithValue) int = is(e, *Unsigned32InfoElement) ? e.(*Unsigned32InfoElement).value : e.(*DateTimeSecondsInfoElement).value
+//@ pure u64v(e entities.InfoElementWithValue) int = e.(*Unsigned64InfoElement).value
+//@ pure isU32(e entities.InfoElementWithValue) bool = (dt(e) == Unsigned32 || dt(e) == DateTimeSeconds)
+//@ pure nodeEndName(isSrc bool) string = isSrc ? "flowEndSecondsFromSourceNode" : "flowEndSecondsFromDestinationNode"
+//@ // every element called name is a 32-bit unsigned / seconds element (resp. 64-bit unsigned)
+//@ pure kind32(r entities.Record, name string) bool = forall j in [0, len(recList(r))): ie(recList(r)[j]).Name == name ==> isU32(recList(r)[j])
+//@ pure kind64(r entities.Record, name string) bool = forall j in [0, len(recList(r))): ie(recList(r)[j]).Name == name ==> dt(recList(r)[j]) == Unsigned64
+
+//@ // per reporting node: the end time of the node's previous record is returned (the flow start for its first record) and replaced by the incoming end time
+//@ func (a *AggregationProcess) updateFlowEndSecondsFromNodes(incomingRecord, existingRecord, isSrc, incomingVal) (r)
+//@   requires rec:  recNN(incomingRecord) && recNN(existingRecord) && distinctElems(existingRecord) && disjointElems(incomingRecord, existingRecord)
+//@   requires has:  hasName(existingRecord, nodeEndName(isSrc)) && kind32(existingRecord, nodeEndName(isSrc)) && hasName(incomingRecord, "flowStartSeconds") && kind32(incomingRecord, "flowStartSeconds")
+//@   ensures  set:  forall l in [0, len(recList(existingRecord))): isFirst(existingRecord, nodeEndName(isSrc), l) ==> u32v(recList(existingRecord)[l]) == incomingVal
+//@   ensures  prev: forall l in [0, len(recList(existingRecord))): isFirst(existingRecord, nodeEndName(isSrc), l) ==>
+//@                  (old(u32v(recList(existingRecord)[l])) != 0 ==> r == old(u32v(recList(existingRecord)[l])))
+//@                  && (old(u32v(recList(existingRecord)[l])) == 0 ==> (forall j in [0, len(recList(incomingRecord))): isFirst(incomingRecord, "flowStartSeconds", j) ==> r == u32v(recList(incomingRecord)[j])))
+//@   // witnesses: the elements that were looked up exist as first elements of their names
+//@   ensures  wit:  exists l in [0, len(recList(existingRecord))): isFirst(existingRecord, nodeEndName(isSrc), l)
+//@                  && (old(u32v(recList(existingRecord)[l])) == 0 ==> (exists j in [0, len(recList(incomingRecord))): isFirst(incomingRecord, "flowStartSeconds", j)))
+//@   ensures  others: forall l in [0, len(recList(existingRecord))): !isFirst(existingRecord, nodeEndName(isSrc), l) && isU32(recList(existingRecord)[l]) ==> u32v(recList(existingRecord)[l]) == old(u32v(recList(existingRecord)[l]))
+//@   modifies recList(existingRecord)[*].(*Unsigned32InfoElement).value, recList(existingRecord)[*].(*DateTimeSecondsInfoElement).value
+
+//@ func fillHttpVals(incomingHttpVals, existingHttpVals) (r, err)
+//@   noeffect
+//@   trusted
+
+//@ pure cfg(a *AggregationProcess) *AggregationElements = a.aggregateElements
+//@ // value of a 64-bit counter element / 32-bit seconds element found by name (first element of that name)
+//@ pure statsLens(a *AggregationProcess) bool = len(cfg(a).AggregatedSourceStatsElements) == len(cfg(a).StatsElements) && len(cfg(a).AggregatedDestinationStatsElements) == len(cfg(a).StatsElements)
+//@     && len(cfg(a).SourceThroughputElements) == len(cfg(a).ThroughputElements) && len(cfg(a).DestinationThroughputElements) == len(cfg(a).ThroughputElements) && len(cfg(a).ThroughputElements) <= 2
+//@ // the configured element names are pairwise different (within and across the stats lists) and are not the end-time fields
+//@ pure statsNamesDistinct(a *AggregationProcess) bool =
+//@     (forall i in [0, len(cfg(a).StatsElements)): forall k in [0, len(cfg(a).StatsElements)):
+//@         (i != k ==> cfg(a).AggregatedSourceStatsElements[i] != cfg(a).AggregatedSourceStatsElements[k] && cfg(a).AggregatedDestinationStatsElements[i] != cfg(a).AggregatedDestinationStatsElements[k] && cfg(a).StatsElements[i] != cfg(a).StatsElements[k])
+//@         && cfg(a).AggregatedSourceStatsElements[i] != cfg(a).AggregatedDestinationStatsElements[k] && cfg(a).AggregatedSourceStatsElements[i] != cfg(a).StatsElements[k] && cfg(a).AggregatedDestinationStatsElements[i] != cfg(a).StatsElements[k])
+//@     && (forall i in [0, len(cfg(a).StatsElements)): forall t in [0, len(cfg(a).ThroughputElements)):
+//@         cfg(a).AggregatedSourceStatsElements[i] != cfg(a).ThroughputElements[t] && cfg(a).AggregatedSourceStatsElements[i] != cfg(a).SourceThroughputElements[t] && cfg(a).AggregatedSourceStatsElements[i] != cfg(a).DestinationThroughputElements[t]
+//@         && cfg(a).AggregatedDestinationStatsElements[i] != cfg(a).ThroughputElements[t] && cfg(a).AggregatedDestinationStatsElements[i] != cfg(a).SourceThroughputElements[t] && cfg(a).AggregatedDestinationStatsElements[i] != cfg(a).DestinationThroughputElements[t])
+//@ // the existing (aggregated) record carries every configured field with its registry type; the incoming record carries the exporter's fields
+//@ pure aggFields(a *AggregationProcess, rin entities.Record, rex entities.Record) bool =
+//@     hasName(rin, "flowEndSeconds") && kind32(rin, "flowEndSeconds") && hasName(rex, "flowEndSeconds") && kind32(rex, "flowEndSeconds")
+//@     && hasName(rin, "flowStartSeconds") && kind32(rin, "flowStartSeconds")
+//@     && hasName(rex, "flowEndSecondsFromSourceNode") && kind32(rex, "flowEndSecondsFromSourceNode") && hasName(rex, "flowEndSecondsFromDestinationNode") && kind32(rex, "flowEndSecondsFromDestinationNode")
+//@     && (forall i in [0, len(cfg(a).StatsElements)): hasName(rin, cfg(a).StatsElements[i]) && kind64(rin, cfg(a).StatsElements[i]) && hasName(rex, cfg(a).StatsElements[i]) && kind64(rex, cfg(a).StatsElements[i])
+//@         && hasName(rex, cfg(a).AggregatedSourceStatsElements[i]) && kind64(rex, cfg(a).AggregatedSourceStatsElements[i])
+//@         && hasName(rex, cfg(a).AggregatedDestinationStatsElements[i]) && kind64(rex, cfg(a).AggregatedDestinationStatsElements[i]))
+//@     && (forall i in [0, len(cfg(a).ThroughputElements)): hasName(rex, cfg(a).ThroughputElements[i]) && kind64(rex, cfg(a).ThroughputElements[i])
+//@         && hasName(rex, cfg(a).SourceThroughputElements[i]) && kind64(rex, cfg(a).SourceThroughputElements[i])
+//@         && hasName(rex, cfg(a).DestinationThroughputElements[i]) && kind64(rex, cfg(a).DestinationThroughputElements[i]))
+
+//@ pure isDeltaName(n string) bool = contains(n, "Delta")
+//@ // 64-bit unsigned addition of two in-range values wraps at most once
+//@ pure wrap64(x int) int = x >= 18446744073709551616 ? x - 18446744073709551616 : x
+//@ // nodeStat(a, rin, rex, i, j, l, src): element l of the aggregated record is the per-node counter i of that node and element j of the incoming
+//@ // record is the counter StatsElements[i]: after the merge a total holds the incoming value, a delta the old value plus the incoming one (64-bit wrap-around)
+//@ pure nodeName(a *AggregationProcess, i int, src bool) string = src ? cfg(a).AggregatedSourceStatsElements[i] : cfg(a).AggregatedDestinationStatsElements[i]
+//@ pure nodeStat(a *AggregationProcess, rin entities.Record, rex entities.Record, i int, j int, l int, src bool) bool =
+//@     0 <= i && i < len(cfg(a).StatsElements) && 0 <= j && j < len(recList(rin)) && 0 <= l && l < len(recList(rex)) && isFirst(rin, cfg(a).StatsElements[i], j) && isFirst(rex, nodeName(a, i, src), l) ==>
+//@     u64v(recList(rex)[l]) == (isDeltaName(cfg(a).StatsElements[i]) ? wrap64(u64v(recList(rin)[j]) + old(u64v(recList(rex)[l]))) : u64v(recList(rin)[j]))
+//@ pure nodeStatKept(a *AggregationProcess, rex entities.Record, i int, l int, src bool) bool =
+//@     0 <= i && i < len(cfg(a).StatsElements) && 0 <= l && l < len(recList(rex)) && isFirst(rex, nodeName(a, i, src), l) ==> u64v(recList(rex)[l]) == old(u64v(recList(rex)[l]))
+//@ // the record was skipped: no 64-bit counter of the aggregated record changed
+//@ pure allU64Kept(rex entities.Record) bool = forall l in [0, len(recList(rex))): dt(recList(rex)[l]) == Unsigned64 ==> u64v(recList(rex)[l]) == old(u64v(recList(rex)[l]))
+//@ // "increasing end times": the incoming record is later than the previous record of its node(s) (otherwise the code skips the record)
+//@ pure laterThanPrev(rin entities.Record, rex entities.Record, src bool) bool = forall j in [0, len(recList(rin))): forall l in [0, len(recList(rex))): forall s in [0, len(recList(rin))):
+//@     isFirst(rin, "flowEndSeconds", j) && isFirst(rex, nodeEndName(src), l) && isFirst(rin, "flowStartSeconds", s) ==>
+//@     u32v(recList(rin)[j]) > (u32v(recList(rex)[l]) == 0 ? u32v(recList(rin)[s]) : u32v(recList(rex)[l]))
+
+//@ func (a *AggregationProcess) aggregateRecords(incomingRecord, existingRecord, fillSrcStats, fillDstStats) (err)
+//@   requires a:    a != nil
+//@   requires rec:  recNN(incomingRecord) && recNN(existingRecord) && distinctElems(existingRecord) && disjointElems(incomingRecord, existingRecord)
+//@   requires cfg:  cfg(a) != nil ==> statsLens(a) && statsNamesDistinct(a) && aggFields(a, incomingRecord, existingRecord) && len(cfg(a).NonStatsElements) == 0
+//@   ensures  nocfg: cfg(a) == nil ==> err == nil
+//@   // the aggregated record carries the latest end time
+//@   ensures  endtime: cfg(a) != nil ==> (forall j in [0, len(recList(incomingRecord))): forall l in [0, len(recList(existingRecord))): isFirst(incomingRecord, "flowEndSeconds", j) && isFirst(existingRecord, "flowEndSeconds", l) ==>
+//@                  u32v(recList(existingRecord)[l]) == max(old(u32v(recList(existingRecord)[l])), u32v(recList(incomingRecord)[j])))
+//@   // per reporting node, for every counter i0 (and the elements j0 / l0 that hold it): totals take the latest value, deltas are summed
+//@   // (no delta lost or double-counted), the other node's fields are untouched
+//@   given i0, j0, l0
+//@   // either the record is merged (per-node counters as specified) or it is skipped entirely (the code skips a record whose end time is
+//@   // not later than the previous one of its node: excluded by the property's quantifier; WHEN it skips is not decided here)
+//@   ensures  srcstats: cfg(a) != nil && err == nil && fillSrcStats ==> nodeStat(a, incomingRecord, existingRecord, i0, j0, l0, true) || allU64Kept(existingRecord)
+//@   ensures  dststats: cfg(a) != nil && err == nil && fillDstStats ==> nodeStat(a, incomingRecord, existingRecord, i0, j0, l0, false) || allU64Kept(existingRecord)
+//@   ensures  srckept: cfg(a) != nil && !fillSrcStats ==> nodeStatKept(a, existingRecord, i0, l0, true)
+//@   ensures  dstkept: cfg(a) != nil && !fillDstStats ==> nodeStatKept(a, existingRecord, i0, l0, false)
+//@   modifies recList(existingRecord)[*].(*StringInfoElement).value, recList(existingRecord)[*].(*Unsigned8InfoElement).value,
+//@            recList(existingRecord)[*].(*Unsigned32InfoElement).value, recList(existingRecord)[*].(*Unsigned64InfoElement).value,
+//@            recList(existingRecord)[*].(*DateTimeSecondsInfoElement).value
+//@   loop 1 invariant none: 0 <= $i && $i <= len(cfg(a).NonStatsElements)
+//@   loop 2 invariant cnt:  0 <= $i && $i <= len(statsElementList) && statsElementList == cfg(a).StatsElements && antreaSourceStatsElements == cfg(a).AggregatedSourceStatsElements && antreaDestinationStatsElements == cfg(a).AggregatedDestinationStatsElements
+//@   loop 2 invariant end:  forall j in [0, len(recList(incomingRecord))): forall l in [0, len(recList(existingRecord))): isFirst(incomingRecord, "flowEndSeconds", j) && isFirst(existingRecord, "flowEndSeconds", l) ==>
+//@                  u32v(recList(existingRecord)[l]) == max(old(u32v(recList(existingRecord)[l])), u32v(recList(incomingRecord)[j]))
+//@   loop 2 invariant nz:   flowEndSecondsDiff > 0
+//@   loop 2 invariant srcdone: fillSrcStats && i0 < $i ==> nodeStat(a, incomingRecord, existingRecord, i0, j0, l0, true)
+//@   loop 2 invariant dstdone: fillDstStats && i0 < $i ==> nodeStat(a, incomingRecord, existingRecord, i0, j0, l0, false)
+//@   loop 2 invariant srctodo: !fillSrcStats || i0 >= $i ==> nodeStatKept(a, existingRecord, i0, l0, true)
+//@   loop 2 invariant dsttodo: !fillDstStats || i0 >= $i ==> nodeStatKept(a, existingRecord, i0, l0, false)
+//@   loop 3 invariant cnt:  0 <= $i && $i <= len(antreaThroughputElements) && antreaThroughputElements == cfg(a).ThroughputElements && antreaSourceThroughputElements == cfg(a).SourceThroughputElements && antreaDestinationThroughputElements == cfg(a).DestinationThroughputElements
+//@   loop 3 invariant srcdone: fillSrcStats ==> nodeStat(a, incomingRecord, existingRecord, i0, j0, l0, true)
+//@   loop 3 invariant dstdone: fillDstStats ==> nodeStat(a, incomingRecord, existingRecord, i0, j0, l0, false)
+//@   loop 3 invariant srckept: !fillSrcStats ==> nodeStatKept(a, existingRecord, i0, l0, true)
+//@   loop 3 invariant dstkept: !fillDstStats ==> nodeStatKept(a, existingRecord, i0, l0, false)
+//@   loop 3 invariant end:  forall j in [0, len(recList(incomingRecord))): forall l in [0, len(recList(existingRecord))): isFirst(incomingRecord, "flowEndSeconds", j) && isFirst(existingRecord, "flowEndSeconds", l) ==>
+//@                  u32v(recList(existingRecord)[l]) == max(old(u32v(recList(existingRecord)[l])), u32v(recList(incomingRecord)[j]))
